@@ -29,6 +29,15 @@ class C05(PureCheck):
         return [dict(module="MC_Parse", cfg=cfg, workers=12, timeout=3000)]
 
     def prepare(self, tier):
+        # the first values rendered in the process carry half of the colours as float-valued codes (fg=31.0 is accepted:
+        # membership tests compare by equality): what those rendered as must not stick to the int-valued colours
+        from curtsies.formatstring import fmtstr
+        for code in (31.0, 33.0, 35.0, 37.0):
+            for kw in ({"fg": code}, {"bg": code + 10}):
+                try:
+                    str(fmtstr("x", **kw))
+                except Exception:  # noqa
+                    pass
         # earlier in the process the parser saw other control functions carrying the same parameter lists (cursor
         # positioning, erase, the two-byte ESC H ...): what it made of those must not affect SGR sequences
         from curtsies.formatstring import FmtStr
